@@ -168,3 +168,63 @@ proof fn lemma_line_starts_nonempty(b: Seq<u8>, cs: Seq<char>, r: Seq<usize>)
 {
     reveal(line_starts_ok);
 }
+
+/// U+2026 HORIZONTAL ELLIPSIS is three bytes in UTF-8
+proof fn lemma_ellipsis_is_three_bytes()
+    ensures encode_utf8(seq!['…']).len() == 3,
+{
+    assert(seq!['…'] =~= Seq::<char>::empty().push('…'));
+    encode_utf8_push(Seq::<char>::empty(), '…');
+    reveal_with_fuel(encode_utf8, 1);
+    assert(encode_utf8(Seq::<char>::empty()).len() == 0);
+    assert('…' as u32 == 0x2026);
+    assert(encode_scalar(0x2026u32).len() == 3);
+}
+
+proof fn lemma_subrange_len(cs: Seq<char>, a: int, b: int)
+    requires 0 <= a <= b <= cs.len(),
+    ensures encode_utf8(cs.subrange(a, b)).len() == char_off(cs, b) - char_off(cs, a), char_off(cs, b) <= encode_utf8(cs).len(), 0 <= char_off(cs, a),
+{
+    assert(cs.take(b) =~= cs.take(a) + cs.subrange(a, b));
+    encode_utf8_concat(cs.take(a), cs.subrange(a, b));
+    lemma_char_off_ends(cs);
+    lemma_char_off_monotonic(cs, b, cs.len() as int);
+}
+
+/// the cropped rendering `[…] + window + […]` of a line is at most 6 bytes longer than the line
+proof fn lemma_cropped_len(cs: Seq<char>, a: int, b: int)
+    requires 0 <= a <= cs.len(), 
+    ensures a <= b <= cs.len() ==> ({ let ell = seq!['…']; let w = cs.subrange(a, b);
+        &&& encode_utf8(w).len() <= encode_utf8(cs).len()
+        &&& encode_utf8(ell + w).len() <= encode_utf8(cs).len() + 3
+        &&& encode_utf8(w + ell).len() <= encode_utf8(cs).len() + 3
+        &&& encode_utf8(ell + w + ell).len() <= encode_utf8(cs).len() + 6
+        &&& encode_utf8(Seq::<char>::empty() + w + Seq::<char>::empty()).len() <= encode_utf8(cs).len()
+        &&& encode_utf8(Seq::<char>::empty() + w + ell).len() <= encode_utf8(cs).len() + 3
+        &&& encode_utf8(ell + w + Seq::<char>::empty()).len() <= encode_utf8(cs).len() + 3 }),
+{
+    if a <= b <= cs.len() {
+        let ell = seq!['…']; let w = cs.subrange(a, b); let e = Seq::<char>::empty();
+        lemma_ellipsis_is_three_bytes();
+        lemma_subrange_len(cs, a, b);
+        encode_utf8_concat(ell, w); encode_utf8_concat(w, ell); encode_utf8_concat(ell + w, ell);
+        assert(e + w =~= w); assert(w + e =~= w); assert(e + w + e =~= w); assert(e + w + ell =~= w + ell); assert(ell + w + e =~= ell + w);
+    }
+}
+
+proof fn lemma_push_lf_len(a: Seq<char>)
+    ensures encode_utf8(a.push('\n')).len() == encode_utf8(a).len() + 1,
+{
+    encode_utf8_push(a, '\n');
+    lemma_scalar_ascii('\n' as u32);
+}
+
+/// dropping a trailing '\r' does not make the text longer
+proof fn lemma_strip_cr_len(cs: Seq<char>)
+    ensures cs.len() > 0 ==> encode_utf8(cs.drop_last()).len() <= encode_utf8(cs).len(),
+{
+    if cs.len() > 0 {
+        assert(cs =~= cs.drop_last().push(cs.last()));
+        encode_utf8_push(cs.drop_last(), cs.last());
+    }
+}
